@@ -13,6 +13,8 @@ import (
 	"github.com/cnotch/ipchub/av/codec"
 	"github.com/cnotch/ipchub/av/format/amf"
 	"github.com/cnotch/ipchub/av/format/flv"
+	"github.com/cnotch/ipchub/media/cache"
+	"github.com/cnotch/queue"
 	"github.com/cnotch/ipchub/utils/verifhook"
 	"github.com/cnotch/xlog"
 )
@@ -154,6 +156,93 @@ func c08Run(c Val) Val {
 	return B(out.Bytes())
 }
 
+// several clients of one stream sharing the muxer's *flv.Tag objects, as media.Stream.WriteFlvTag does:
+// the same pointer goes to the real GOP cache and to the queue of every attached client; each client
+// drains its queue into its own flv.Writer when the case lets its routine run
+type c08Client struct {
+	q   *queue.SyncQueue
+	out bytes.Buffer
+	w   *flv.Writer
+}
+
+func (c *c08Client) write(n int) {
+	for i := 0; i < n; i++ {
+		e, ok := c.q.Queue().Pop()
+		if !ok {
+			return
+		}
+		c.w.WriteFlvTag(e.(*flv.Tag))
+	}
+}
+
+func c08Fan(c Val) Val {
+	cfg, frames, events := c.At(0), c.At(1).List(), c.At(2).List()
+	vm, am := c08Metas(cfg)
+	core := &c08Core{died: make(chan struct{})}
+	sink := &c08Sink{}
+	atomic.StoreInt64(&c08Pops, 0)
+	atomic.StoreInt64(&c08Target, int64(len(frames))+1)
+	c08Idle = make(chan struct{})
+	verifhook.SetPoint(c08Point)
+	defer verifhook.SetPoint(nil)
+	mux, err := flv.NewMuxer(vm, am, sink, xlog.New(core))
+	if err != nil {
+		return L(S("!err"), S(err.Error()))
+	}
+	for _, f := range frames {
+		mux.WriteFrame(&codec.Frame{MediaType: codec.MediaType(f.At(0).Int()), Dts: f.At(1).Int(),
+			Pts: f.At(2).Int(), Payload: f.At(3).Bytes()})
+	}
+	select {
+	case <-c08Idle:
+	case <-core.died:
+	case <-time.After(20 * time.Second):
+		return L(S("!hang"), S("muxer did not drain"))
+	}
+	verifhook.SetPoint(nil)
+	mux.Close()
+
+	tags := sink.tags // the shared objects
+	fc := cache.NewFlvCache(true)
+	var clients []*c08Client
+	for _, e := range events {
+		switch e.At(0).Int() {
+		case 0:
+			i := int(e.At(1).Int())
+			if i < len(tags) {
+				fc.CachePack(tags[i])
+				for _, cl := range clients {
+					cl.q.Queue().Push(tags[i])
+				}
+			}
+		case 1:
+			cl := &c08Client{q: queue.NewSyncQueue()}
+			w, err := flv.NewWriter(&cl.out, mux.TypeFlags())
+			if err != nil {
+				return L(S("!err"), S(err.Error()))
+			}
+			cl.w = w
+			fc.PushTo(cl.q)
+			clients = append(clients, cl)
+		default:
+			j := int(e.At(1).Int())
+			if j < len(clients) {
+				clients[j].write(int(e.At(2).Int()))
+			}
+		}
+	}
+	outs := []Val{}
+	for _, cl := range clients {
+		cl.write(cl.q.Queue().Len())
+		outs = append(outs, B(cl.out.Bytes()))
+	}
+	tss := []Val{}
+	for _, t := range tags {
+		tss = append(tss, L(I(int64(t.TagType)), I(int64(t.Timestamp)), B(t.Data)))
+	}
+	return L(L(tss...), L(outs...))
+}
+
 var commands = map[string]func(Val) Val{}
 
 func main() { Main(commands) }
@@ -161,6 +250,7 @@ func main() { Main(commands) }
 func init() {
 	time.Local = time.UTC // RFC3339 creation date then always ends in "Z" (20 bytes)
 	commands["C08"] = c08Run
+	commands["C08fan"] = c08Fan
 	commands["hvcc"] = func(c Val) Val {
 		rec := flv.NewHEVCDecoderConfigurationRecord(c.At(0).Bytes(), c.At(1).Bytes(), c.At(2).Bytes())
 		b, _ := rec.Marshal()
